@@ -20391,3 +20391,43 @@ mod tests {
 		assert!(node_a_chan.check_get_channel_ready(0, &&logger).is_some());
 	}
 }
+
+#[cfg(feature = "_verif")]
+#[allow(missing_docs)]
+pub mod verif_hooks {
+	use super::*;
+	use crate::sign::KeysManager;
+
+	/// Calls the real `FundedChannel::internal_htlc_satisfies_config`; that method never reads
+	/// `self`, so an uninitialised receiver is handed in (native oracle use only).
+	pub fn htlc_satisfies_config_arith(
+		htlc_amount_msat: u64, htlc_cltv_expiry: u32, amt_to_forward: u64, outgoing_cltv_value: u32,
+		forwarding_fee_base_msat: u32, forwarding_fee_proportional_millionths: u32,
+		cltv_expiry_delta: u16,
+	) -> Result<(), LocalHTLCFailureReason> {
+		let htlc = msgs::UpdateAddHTLC {
+			channel_id: ChannelId([0; 32]),
+			htlc_id: 0,
+			amount_msat: htlc_amount_msat,
+			payment_hash: PaymentHash([0; 32]),
+			cltv_expiry: htlc_cltv_expiry,
+			skimmed_fee_msat: None,
+			onion_routing_packet: msgs::OnionPacket {
+				version: 0,
+				public_key: Err(bitcoin::secp256k1::Error::InvalidPublicKey),
+				hop_data: [0; 20 * 65],
+				hmac: [0; 32],
+			},
+			blinding_point: None,
+			hold_htlc: None,
+			accountable: None,
+		};
+		let mut config = ChannelConfig::default();
+		config.forwarding_fee_base_msat = forwarding_fee_base_msat;
+		config.forwarding_fee_proportional_millionths = forwarding_fee_proportional_millionths;
+		config.cltv_expiry_delta = cltv_expiry_delta;
+		let chan = core::mem::MaybeUninit::<FundedChannel<KeysManager>>::uninit();
+		let chan_ref: &FundedChannel<KeysManager> = unsafe { &*chan.as_ptr() };
+		chan_ref.internal_htlc_satisfies_config(&htlc, amt_to_forward, outgoing_cltv_value, &config)
+	}
+}
